@@ -35,38 +35,157 @@ func c11BuiltinArgs() []c11Arg {
 	}
 }
 
-func c11Builtins(r *Run) {
+// c11BuiltinInputs: every (expression, position) of the builtin stream
+func c11BuiltinInputs() ([]map[string]any, map[string]any) {
 	names := []string{}
 	for n := range vuego.NewVue(fstest.MapFS{}).DefaultFuncMap() {
 		names = append(names, n)
 	}
 	sort.Strings(names)
-	r.Res.Distribution["builtins"] = len(names)
 	args := c11BuiltinArgs()
 	data := map[string]any{}
 	for _, a := range args {
 		data[a.name] = a.v
 	}
+	var ins []map[string]any
 	for _, fn := range names {
 		for _, a := range args {
-			for _, form := range []string{"%[2]s | %[1]s", "%[1]s(%[2]s)", `%[2]s | %[1]s("2006-01-02")`, "%[2]s | %[1]s(i)", "%[2]s | %[1]s(nilTimePtr)", "%[1]s(%[2]s, %[2]s)", "%[2]s | %[1]s | %[1]s"} {
+			for _, form := range []string{"%[2]s | %[1]s", "%[1]s(%[2]s)", `%[2]s | %[1]s("2006-01-02")`, "%[2]s | %[1]s(i)", "%[2]s | %[1]s(nilTimePtr)", "%[1]s(%[2]s, %[2]s)", "%[2]s | %[1]s | %[1]s",
+				// a call that is only the beginning of the expression (operators written without spaces), alone and as the head of a pipe
+				"%[1]s(%[2]s)-1", "%[1]s(%[2]s)%%2 | string", "%[1]s(%[2]s)+%[1]s(%[2]s)", "%[1]s(%[2]s).x", "%[1]s(%[2]s)[0]", "%[1]s(%[2]s) %[1]s(%[2]s)"} {
 				expr := fmt.Sprintf(form, fn, a.name)
 				for _, pos := range []string{"text", "if"} {
 					tpl := "<p>{{ " + expr + " }}</p>"
 					if pos == "if" {
-						tpl = `<p v-if="` + expr + `">y</p><p :title="` + expr + `">z</p>`
+						tpl = `<p v-if="` + expr + `">y</p><p :title="` + expr + `">z</p><i v-text="` + expr + `"></i>`
 					}
-					res := renderPage(map[string]string{"p.vuego": tpl, "data.json": `{"a":1}`, "data.yml": "a: 1\n"}, "p.vuego", data)
-					c := &Case{Name: "builtin " + expr + " in " + pos, Input: map[string]any{"stream": "builtin", "expr": expr, "pos": pos, "tpl": tpl}, Impl: res.canon(), Oracle: &Verdict{OK: true},
-						Key: "builtin|" + pos + "|" + expr, Tags: []string{"stream:builtin", "fn:" + fn}}
-					if res.Panic != "" {
-						c.Oracle = &Verdict{OK: false, Class: "panic:builtin:" + fn, Detail: fmt.Sprintf("%s with %s = %#v panicked: %s", expr, a.name, a.v, res.Panic)}
-					} else if res.Timeout {
-						c.Oracle = &Verdict{OK: false, Class: "hang:builtin:" + fn, Detail: expr}
-					}
-					r.Add(c)
+					ins = append(ins, map[string]any{"stream": "builtin", "expr": expr, "pos": pos, "tpl": tpl, "fn": fn, "arg": a.name})
 				}
 			}
 		}
+	}
+	return ins, data
+}
+
+func c11BuiltinEval(in map[string]any, data map[string]any) *Case {
+	expr, pos, tpl, fn := in["expr"].(string), in["pos"].(string), in["tpl"].(string), in["fn"].(string)
+	res := renderPage(map[string]string{"p.vuego": tpl, "data.json": `{"a":1}`, "data.yml": "a: 1\n"}, "p.vuego", data)
+	c := &Case{Name: "builtin " + expr + " in " + pos, Input: map[string]any{"stream": "builtin", "expr": expr, "pos": pos, "tpl": tpl}, Impl: res.canon(), Oracle: &Verdict{OK: true},
+		Key: "builtin|" + pos + "|" + expr, Tags: []string{"stream:builtin", "fn:" + fn}}
+	if res.Panic != "" {
+		c.Oracle = &Verdict{OK: false, Class: "panic:builtin:" + fn, Detail: fmt.Sprintf("%s with %s = %#v panicked: %s", expr, in["arg"], data[fmt.Sprint(in["arg"])], res.Panic)}
+	} else if res.Timeout {
+		c.Oracle = &Verdict{OK: false, Class: "hang:builtin:" + fn, Detail: expr}
+	}
+	return c
+}
+
+func c11Builtins(r *Run) {
+	ins, data := c11BuiltinInputs()
+	r.Res.Distribution["builtins"] = len(ins)
+	c11Guarded(r, "builtin", len(ins), func(i int) *Case { return c11BuiltinEval(ins[i], data) }, func(i int) map[string]any { return ins[i] })
+}
+
+// c11Guarded runs a stream of in-process cases that may KILL the process (a stack overflow is fatal, not a panic): a child process runs the
+// whole range first; if it dies, the range is halved in further children until the cases that kill it are known — those are reported with
+// their input and left out of the in-process run.
+func c11Guarded(r *Run, stream string, n int, eval func(i int) *Case, describe func(i int) map[string]any) {
+	if isChild() {
+		for i := 0; i < n; i++ {
+			r.Add(eval(i))
+		}
+		return
+	}
+	fatal := map[int]string{}
+	skip := map[int]bool{} // once three killing cases are known, a range that still kills a child is left out as a whole
+	var probe func(from, to int)
+	probe = func(from, to int) {
+		if from >= to {
+			return
+		}
+		_, v := runIsolated("C11", map[string]any{"stream": "guard", "which": stream, "from": from, "to": to}, fmt.Sprintf("guard %s %d-%d", stream, from, to), 180*time.Second)
+		if v.OK || (v.Class != "crash" && v.Class != "hang") {
+			return // survived (ordinary verdicts are the in-process run's business)
+		}
+		if to-from == 1 {
+			fatal[from] = v.Class + ": " + v.Detail
+			return
+		}
+		if len(fatal) >= 3 {
+			for i := from; i < to; i++ {
+				skip[i] = true
+			}
+			return
+		}
+		mid := (from + to) / 2
+		probe(from, mid)
+		probe(mid, to)
+	}
+	probe(0, n)
+	for i := 0; i < n; i++ {
+		if why, bad := fatal[i]; bad {
+			in := describe(i)
+			r.Add(&Case{Name: fmt.Sprintf("%s case %d kills the process", stream, i), Input: in, Key: fmt.Sprintf("fatal|%s|%d", stream, i), Tags: []string{"stream:" + stream, "isolated"},
+				Oracle: &Verdict{OK: false, Class: "crash:" + stream, Detail: fmt.Sprintf("rendering %v in a child process: %s", in["tpl"], why)}})
+			continue
+		}
+		if skip[i] {
+			continue
+		}
+		r.Add(eval(i))
+	}
+}
+
+// c11GuardedInputs is c11Guarded for a stream whose inputs the child cannot regenerate (they come from the parent's random stream): the
+// parent hands each probed range over as a list
+func c11GuardedInputs(r *Run, stream string, n int, eval func(i int) *Case, describe func(i int) map[string]any) {
+	if isChild() {
+		for i := 0; i < n; i++ {
+			r.Add(eval(i))
+		}
+		return
+	}
+	fatal := map[int]string{}
+	skip := map[int]bool{}
+	var probe func(from, to int)
+	probe = func(from, to int) {
+		if from >= to {
+			return
+		}
+		items := make([]any, 0, to-from)
+		for i := from; i < to; i++ {
+			items = append(items, describe(i))
+		}
+		limit := 120*time.Second + time.Duration(to-from)*20*time.Millisecond
+		_, v := runIsolated("C11", map[string]any{"stream": "guard", "which": "list", "items": items}, fmt.Sprintf("guard %s %d-%d", stream, from, to), limit)
+		if v.OK || (v.Class != "crash" && v.Class != "hang") {
+			return
+		}
+		if to-from == 1 {
+			fatal[from] = v.Class + ": " + v.Detail
+			return
+		}
+		if len(fatal) >= 3 {
+			for i := from; i < to; i++ {
+				skip[i] = true
+			}
+			return
+		}
+		mid := (from + to) / 2
+		probe(from, mid)
+		probe(mid, to)
+	}
+	probe(0, n)
+	for i := 0; i < n; i++ {
+		if why, bad := fatal[i]; bad {
+			in := describe(i)
+			r.Add(&Case{Name: fmt.Sprintf("%s case %d kills the process", stream, i), Input: in, Key: fmt.Sprintf("fatal|%s|%d", stream, i), Tags: []string{"stream:" + stream, "isolated"},
+				Oracle: &Verdict{OK: false, Class: "crash:" + stream, Detail: fmt.Sprintf("rendering %q in a child process: %s", in["tpl"], why)}})
+			continue
+		}
+		if skip[i] {
+			continue
+		}
+		r.Add(eval(i))
 	}
 }
